@@ -294,6 +294,36 @@ func c11Body(x *mc.Exec) {
 		if after := c11Readable(c); after != before {
 			x.Fail(sig+"marshal-changed-inputs", "base %q: marshaling changed what is read from the document or URL:\n  before: %s\n  after:  %s", c11BaseNames[base], before, after)
 		}
+		// the same objects, used again after the caller re-ordered the order-irrelevant parts
+		// (a marshaler that remembers "already sorted" would now emit them as given)
+		rev := func(l []string) []string {
+			o := make([]string, len(l))
+			for i := range l {
+				o[len(l)-1-i] = l[i]
+			}
+			return o
+		}
+		for t, l := range c.URL.Params.Fields {
+			c.URL.Params.Fields[t] = rev(l)
+		}
+		for t, l := range c.Doc.RelData {
+			c.Doc.RelData[t] = rev(l)
+		}
+		for i, k := 0, len(c.Doc.Included)-1; i < k; i, k = i+1, k-1 {
+			c.Doc.Included[i], c.Doc.Included[k] = c.Doc.Included[k], c.Doc.Included[i]
+		}
+		if r, ok := c.Doc.Data.(j.Resource); ok {
+			for n, rel := range r.Rels() {
+				if l, isList := r.Get(n).([]string); isList && !rel.ToOne {
+					r.Set(n, rev(l))
+				}
+			}
+		}
+		got, f := c11Marshal(c)
+		x.R.Add("transitions", 1)
+		if f != "" || string(got) != string(want) {
+			x.Fail(sig+"reuse-after-reordering", "base %q: after three marshals the selections, relationship-data lists, included list and to-many ids were reversed in place; the next marshal differs:\n  before: %.300s\n  now:    %.300s %s", c11BaseNames[base], want, got, f)
+		}
 		x.R.Mark("nontrivial", mc.Hash("rep", base))
 	}
 }
@@ -331,7 +361,7 @@ func init() {
 	Register(&Prop{
 		Post: c11Conformance,
 		ID: "C11",
-		Rule: "Engine A over 10 base (document, URL) pairs, every URL with size, number and four custom page[...] keys (soft / wrapped single resource with 3 included of mixed implementations, Resources / SoftCollection / WrapperCollection, errors with links/source/meta maps, identifiers + nested meta + links map, names needing escapes, a 12-field type with a long selection given in reverse order, a mixed collection one of whose member types has no selection entry): (i) map schedules: the iteration order of EVERY instrumented map-range loop instance met while marshaling (all n! orders for n <= 4 keys, reversal/rotations/adjacent swaps above) is an environment choice; all executions with <= 1 (thorough 2) deviating loop instances, plus the uniform reversed and rotated schedules; (ii) all orders of a 3-id to-many list, of a 4-name field selection, of the relationship-data list and of a 3-element included list with distinct ids; (iii) three marshals in a row on the same objects. Oracle: byte-identical output everywhere; everything later readable from the resources and the URL (modulo the three exempted orders) unchanged. Non-trivial = execution with at least one deviating loop / a non-default permutation",
+		Rule: "Engine A over 10 base (document, URL) pairs, every URL with size, number and four custom page[...] keys (soft / wrapped single resource with 3 included of mixed implementations, Resources / SoftCollection / WrapperCollection, errors with links/source/meta maps, identifiers + nested meta + links map, names needing escapes, a 12-field type with a long selection given in reverse order, a mixed collection one of whose member types has no selection entry): (i) map schedules: the iteration order of EVERY instrumented map-range loop instance met while marshaling (all n! orders for n <= 4 keys, reversal/rotations/adjacent swaps above) is an environment choice; all executions with <= 1 (thorough 2) deviating loop instances, plus the uniform reversed and rotated schedules; (ii) all orders of a 3-id to-many list, of a 4-name field selection, of the relationship-data list and of a 3-element included list with distinct ids; (iii) three marshals in a row on the same objects, then a fourth after every order-irrelevant part was reversed in place. Oracle: byte-identical output everywhere; everything later readable from the resources and the URL (modulo the three exempted orders) unchanged. Non-trivial = execution with at least one deviating loop / a non-default permutation",
 		Assumptions: []string{"the repository suite passing under the instrumented build (sorted, reversed, rotated schedules) binds the rewritten loops to the original ones"},
 		Harnesses: []Harness{{Name: "C11/marshal", Body: c11Body, Dev: func() int {
 			if Thorough() {
